@@ -219,6 +219,10 @@ theorem hinv_step {c : Cfg} (hF : c.F.ok = true) (s : St) (a : Act) (s' : St)
     have hle := h.le
     refine ⟨h.le, h.tok, by simp [ha], by simpa using h.shape, ?_⟩
     intro _; simp only [PhaseOk]; exact ⟨by omega, hph.2⟩
+  | earlyResponse id =>
+    obtain ⟨_, _, _, hhr, _, _⟩ := facts_ok hF
+    simp only [step, hhr, if_true] at hs
+    split at hs <;> simp at hs
   | recvInline =>
     simp only [step] at hs
     split at hs <;> simp at hs
@@ -498,8 +502,12 @@ theorem winv_teardown {c : Cfg} {s : St} (h : WInv s) : WInv (teardown c s) := b
   unfold teardown
   exact winv_of_eq h (by simpa using e1) (by simpa using e2) (by simpa using e3) (by simp [preReader])
 
-theorem winv_step {c : Cfg} (s : St) (a : Act) (s' : St) (h : WInv s) (hs : step c s a = some s') : WInv s' := by
+theorem winv_step {c : Cfg} (hR : c.F.hooksBeforeReader = true) (s : St) (a : Act) (s' : St) (h : WInv s)
+    (hs : step c s a = some s') : WInv s' := by
   cases a with
+  | earlyResponse id =>
+    simp only [step, hR, if_true] at hs
+    split at hs <;> simp at hs
   | handshakeFail =>
     simp only [step] at hs
     split at hs <;> simp at hs
@@ -678,14 +686,14 @@ theorem winv_step {c : Cfg} (s : St) (a : Act) (s' : St) (h : WInv s) (hs : step
     refine ⟨?_, h.ord, h.pre⟩
     exact List.Sublist.trans (by simp) h.sub
 
-theorem winv_reachable {c : Cfg} {s : St} (hr : Reachable c s) : WInv s :=
-  reachable_induction winv_init (fun s a s' h hs => winv_step s a s' h hs) s hr
+theorem winv_reachable {c : Cfg} (hR : c.F.hooksBeforeReader = true) {s : St} (hr : Reachable c s) : WInv s :=
+  reachable_induction winv_init (fun s a s' h hs => winv_step hR s a s' h hs) s hr
 
 /-! ### invariant 3: the writer task does not outlive the connection task; the token stays cancelled -/
 
 theorem exitBlock_fields (c : Cfg) (s : St) :
     (exitBlock c s).phase = .draining ∧ (exitBlock c s).accepted = s.accepted ∧
-    (exitBlock c s).writer = (if s.writer == .running then .signalled else s.writer) ∧
+    (exitBlock c s).writer = (if s.writer == .running || s.writer == .notSpawned then .signalled else s.writer) ∧
     (s.token = true → (exitBlock c s).token = true) := by
   obtain ⟨_, _, _, _, _, e6, e7⟩ := dropGuard_chan c s
   have ht : s.token = true → (dropGuard c s).token = true := by
@@ -697,14 +705,15 @@ theorem exitBlock_fields (c : Cfg) (s : St) :
 
 theorem teardown_fields (c : Cfg) (s : St) :
     (teardown c s).phase = .done ∧ (teardown c s).accepted = s.accepted ∧
-    (teardown c s).writer = (if chanOpen s then (if c.F.abortOnDrop then .aborted else .signalled) else s.writer) ∧
+    (teardown c s).writer = (if s.writer == .running || s.writer == .signalled
+      then (if c.F.abortOnDrop then .aborted else .signalled) else s.writer) ∧
     (s.token = true → (teardown c s).token = true) := by
   obtain ⟨_, _, _, _, _, e6, e7⟩ := dropGuard_chan c s
   have ht : s.token = true → (dropGuard c s).token = true := by
     unfold dropGuard; split <;> simp
   unfold teardown
-  simp only [chanOpen, e6, e7]
-  exact ⟨trivial, trivial, rfl, ht⟩
+  simp only [e6, e7]
+  exact ⟨trivial, trivial, trivial, ht⟩
 
 theorem finish_fields (c : Cfg) (s : St) :
     (finish c s).phase = .done ∧ (finish c s).accepted = s.accepted ∧ (finish c s).writer = s.writer ∧
@@ -730,7 +739,7 @@ structure RInv (s : St) : Prop where
 
 theorem rinv_init : RInv init := ⟨by simp [init], by simp [init], by simp [init]⟩
 
-theorem rinv_step {c : Cfg} (hA : c.F.abortOnDrop = true) (s : St) (a : Act) (s' : St)
+theorem rinv_step {c : Cfg} (hA : c.F.abortOnDrop = true) (hW : c.F.writerBeforeGuard = true) (s : St) (a : Act) (s' : St)
     (h : RInv s) (hs : step c s a = some s') : RInv s' := by
   obtain ⟨x1, x2, x3, _⟩ := exitBlock_fields c s
   obtain ⟨t1, t2, t3, _⟩ := teardown_fields c s
@@ -740,10 +749,11 @@ theorem rinv_step {c : Cfg} (hA : c.F.abortOnDrop = true) (s : St) (a : Act) (s'
   cases hw : s.writer <;>
   cases a <;> simp only [step] at hs <;> (repeat' split at hs) <;> (try (simp at hs)) <;>
     (try (obtain ⟨_, hs⟩ := hs)) <;> (try subst hs) <;>
-    refine ⟨?_, ?_, ?_⟩ <;> simp_all [chanOpen, arm, enqueue]
+    refine ⟨?_, ?_, ?_⟩ <;> simp_all [arm, enqueue]
 
-theorem rinv_reachable {c : Cfg} (hA : c.F.abortOnDrop = true) {s : St} (hr : Reachable c s) : RInv s :=
-  reachable_induction rinv_init (fun s a s' h hs => rinv_step hA s a s' h hs) s hr
+theorem rinv_reachable {c : Cfg} (hA : c.F.abortOnDrop = true) (hW : c.F.writerBeforeGuard = true) {s : St}
+    (hr : Reachable c s) : RInv s :=
+  reachable_induction rinv_init (fun s a s' h hs => rinv_step hA hW s a s' h hs) s hr
 
 /-- The connection token is never un-cancelled. -/
 theorem token_step {c : Cfg} (s : St) (a : Act) (s' : St) (h : s.token = true) (hs : step c s a = some s') :
@@ -847,5 +857,45 @@ theorem shape_order (k n : Nat) :
       have : e ∈ connects k := by rw [hck, ← hrest.1]; simp
       have := hc e this
       simp [he] at this
+
+/-! ### `normalize_path` -/
+
+theorem trimSlashes_append_replicate (b : List Char) (k : Nat) (hb : b.getLast? ≠ some '/') :
+    trimSlashes (b ++ List.replicate k '/') = b := by
+  unfold trimSlashes
+  rw [List.reverse_append, List.reverse_replicate]
+  have h1 : ∀ (k : Nat) (r : List Char), (List.replicate k '/' ++ r).dropWhile (· == '/') = r.dropWhile (· == '/') := by
+    intro k r; induction k with
+    | zero => rfl
+    | succ k ih => simp [List.replicate_succ, ih]
+  rw [h1]
+  have h2 : b.reverse.dropWhile (· == '/') = b.reverse := by
+    cases hr : b.reverse with
+    | nil => rfl
+    | cons x xs =>
+      have : b.getLast? = some x := by rw [← List.head?_reverse, hr]; rfl
+      have hx : x ≠ '/' := fun e => hb (e ▸ this)
+      simp [List.dropWhile_cons, hx]
+  rw [h2, List.reverse_reverse]
+
+theorem trimSlashes_no_trailing (p : List Char) : (trimSlashes p).getLast? ≠ some '/' := by
+  unfold trimSlashes
+  rw [List.getLast?_reverse]
+  intro h
+  have := List.head?_dropWhile_not (· == '/') p.reverse
+  rw [h] at this
+  simp at this
+
+theorem trimSlashes_prefix (p : List Char) : trimSlashes p <+: p := by
+  unfold trimSlashes
+  have h := List.dropWhile_suffix (· == '/') (l := p.reverse)
+  rw [← List.reverse_reverse (List.dropWhile (· == '/') p.reverse)] at h
+  exact List.reverse_suffix.mp h
+
+theorem trimSlashes_head (p : List Char) (x : Char) (xs : List Char) (h : trimSlashes p = x :: xs) :
+    p.head? = some x := by
+  obtain ⟨t, ht⟩ := trimSlashes_prefix p
+  rw [h] at ht
+  rw [← ht]; rfl
 
 end Repe.Lifecycle
